@@ -13,8 +13,34 @@ def _rdf_iso(a, b):
     return isomorphic(g1, g2)
 
 
+def build_other(doc):
+    """A second document with the same content, built record by record: its namespace managers only know
+    what its own records needed (a bundle identifier's namespace need not be registered on the document)."""
+    from prov.model import ProvDocument, ProvBundle
+    other = ProvDocument()
+    for r in doc.get_records():
+        other.add_record(r)
+    for b in doc.bundles:
+        nb = ProvBundle(identifier=b.identifier)
+        for r in b.get_records():
+            nb.add_record(r)
+        other.add_bundle(nb)
+    return other
+
+
+def _snapshot(d):
+    from project import proj_ns
+    def one(c):
+        return (c.get_provn(), proj_ns(c))
+    return (one(d), [one(b) for b in d.bundles])
+
+
+FRAME = {"ok": True}
+
+
 def do_export(doc, ex):
-    """Returns (kind, payload) ; kind 'text' compares by ==, 'rdf' by isomorphism, 'none' not compared."""
+    """Returns (kind, payload) ; kind 'text' compares by ==, 'rdf' by isomorphism, 'none' not compared.
+    FRAME["ok"] is cleared when a call changed an object other than `doc` that it was only given to read."""
     if ex in ("json", "xml", "provn"):
         return "text", doc.serialize(format=ex)
     if ex == "xmlforce":
@@ -41,27 +67,151 @@ def do_export(doc, ex):
         return "text", doc.flattened().get_provn()
     if ex == "eq":
         return "text", str(doc == doc) + str(doc != doc)
+    if ex == "eqother":
+        # comparison with ANOTHER document of the same content, both ways; neither operand may change
+        other = build_other(doc)
+        before = _snapshot(other)
+        out = "%s %s %s %s" % (doc == other, other == doc, doc != other, other != doc)
+        if _snapshot(other) != before:
+            FRAME["ok"] = False
+        return "text", out
     if ex == "hash":
         return "text", str([hash(r) == hash(r) for r in doc.get_records()])
     raise ValueError(ex)
+
+
+# --------------------------------------------------------------------------
+# The twin document lives in a PRISTINE process: a zygote forked from this one before it ran any
+# export forks one child per request; the child rebuilds the document by the same calls and runs the
+# same export sequence.  Module-level state that an earlier export left behind in this process (a
+# cache, a mutated table, a counter) cannot reach it, so such leaks show up as twin differences.
+import os
+import pickle
+import struct
+
+_ZYG = None
+
+
+def _read_exact(fd, n):
+    buf = b""
+    while len(buf) < n:
+        chunk = os.read(fd, n - len(buf))
+        if not chunk:
+            return None
+        buf += chunk
+    return buf
+
+
+def _send(fd, data):
+    os.write(fd, struct.pack("!I", len(data)))
+    view = memoryview(data)
+    while view:
+        k = os.write(fd, view)
+        view = view[k:]
+
+
+def _recv(fd):
+    h = _read_exact(fd, 4)
+    if h is None:
+        return None
+    return _read_exact(fd, struct.unpack("!I", h)[0])
+
+
+def _cold_child(req):
+    import drive
+    init, seed, salt, hist, h, seq = req
+    wld = drive.World(init, seed, salt)
+    for b in hist:
+        try:
+            wld.prepare_total(b)()
+        except Exception:
+            pass
+    outs = []
+    for ex in seq:
+        try:
+            outs.append(do_export(wld.h[h], ex))
+        except Exception as e:
+            outs.append(("exc", type(e).__name__))
+    return outs
+
+
+def _zygote_loop(rfd, wfd):
+    while True:
+        data = _recv(rfd)
+        if data is None:
+            os._exit(0)
+        r, w = os.pipe()
+        pid = os.fork()
+        if pid == 0:
+            os.close(r)
+            try:
+                out = pickle.dumps(_cold_child(pickle.loads(data)))
+            except BaseException as e:
+                out = pickle.dumps(("fail", repr(e)))
+            _send(w, out)
+            os._exit(0)
+        os.close(w)
+        out = _recv(r)
+        os.close(r)
+        os.waitpid(pid, 0)
+        _send(wfd, out if out is not None else pickle.dumps(("fail", "no answer")))
+
+
+def ensure_zygote():
+    """Fork the zygote now (call before this process runs its first export)."""
+    global _ZYG
+    if _ZYG is not None and _ZYG[2] == os.getpid():
+        return
+    p2c_r, p2c_w = os.pipe()
+    c2p_r, c2p_w = os.pipe()
+    pid = os.fork()
+    if pid == 0:
+        os.close(p2c_w)
+        os.close(c2p_r)
+        try:
+            _zygote_loop(p2c_r, c2p_w)
+        finally:
+            os._exit(0)
+    os.close(p2c_r)
+    os.close(c2p_w)
+    _ZYG = (p2c_w, c2p_r, os.getpid())
+
+
+def cold_exports(init, seed, salt, hist, h, seq):
+    ensure_zygote()
+    _send(_ZYG[0], pickle.dumps((init, seed, salt, hist, h, list(seq))))
+    data = _recv(_ZYG[1])
+    if data is None:
+        raise RuntimeError("cold twin: the zygote went away")
+    out = pickle.loads(data)
+    if isinstance(out, tuple) and out and out[0] == "fail":
+        raise RuntimeError("cold twin failed: %s" % (out[1],))
+    return out
 
 
 def run_exports(doc, twin, seq):
     items = []
     last = {}
     for ex in seq:
-        it = {"ex": ex, "exc": "none", "prev": "first", "twin": "same"}
+        it = {"ex": ex, "exc": "none", "prev": "first", "twin": "same", "frame": True}
+        FRAME["ok"] = True
         try:
             kind, out = do_export(doc, ex)
+            it["frame"] = FRAME["ok"]
         except Exception as e:
             it["exc"] = type(e).__name__
             it["twin"] = "same"
             items.append(it)
             continue
-        try:
-            _, tout = do_export(twin, ex)
-        except Exception as e:
-            tout = None
+        if isinstance(twin, list):          # outputs of the pristine-process twin, one per call
+            tkind, tout = twin[len(items)]
+            if tkind == "exc":
+                tout = None
+        else:
+            try:
+                _, tout = do_export(twin, ex)
+            except Exception as e:
+                tout = None
         same = (lambda a, b: a is not None and b is not None and (_rdf_iso(a, b) if kind == "rdf" else a == b))
         if ex in last:
             it["prev"] = "same" if same(last[ex], out) else "diff"
